@@ -24,10 +24,10 @@ HIST_MAX = 3         # = HistMax of the specification
 RTOL = 1e-8          # (rel) sub-claims through SVD / eig
 
 INVS = {
-    "proj": ["ProjHermitian", "ProjIdempotent", "ProjFixesA", "ProjComplementary", "ReflectTwice", "ProjRank", "ProjSplits", "ProjScaleLaw"],
+    "proj": ["ProjHermitian", "ProjIdempotent", "ProjFixesA", "ProjComplementary", "ReflectTwice", "ProjRank", "ProjSplits", "ProjScaleLaw", "ProjBasisLaw"],
     "projhist": ["ProjObjectCoherent", "ProjHistInputs"],
-    "chord": ["ChordFormsAgree", "ChordSymmetric", "ChordZeroOnEqual", "ChordBasisInvariant", "ChordUnitaryInvariant", "ChordHouseholderIsUnitary", "ChordAngles", "ChordRange"],
-    "chordx": ["ChordXFormsAgree", "ChordXSymmetric", "ChordXBasisInvariant", "ChordXUnitaryInvariant", "ChordXRange"],
+    "chord": ["ChordFormsAgree", "ChordSymmetric", "ChordZeroOnEqual", "ChordBasisInvariant", "ChordUnitaryInvariant", "ChordHouseholderIsUnitary", "ChordAngles", "ChordBasisFormLaw", "ChordRange"],
+    "chordx": ["ChordXFormsAgree", "ChordXSymmetric", "ChordXBasisInvariant", "ChordXUnitaryInvariant", "ChordXBasisFormLaw", "ChordXRange"],
     "smw": ["SmwIsInverse", "SmwScaleLaw"],
     "conv": ["ConvInverse", "ConvOffset", "ConvFullPrecision"],
     "ebn0": ["EbLaw", "ConvFullPrecision"],
@@ -160,6 +160,21 @@ def variants(m, k=1.0):
     return out
 
 
+def basis_forms(c, key, A, mag):
+    """the forms in which a basis is offered besides the matrix as built (field `forms` of the case, see `BasisForms` in
+    the specification): columns rescaled individually (exact, emitted), unit-norm columns (NOT orthogonal), an
+    orthonormal basis.  All of them span the subspace of A, so every expected value stays the one emitted for A."""
+    out = []
+    forms = set(c.get("forms", []))
+    if "colscaled" in forms:
+        out.append(("columns rescaled individually", mat(c[key + "D"]) * mag))
+    if "unitnorm" in forms:
+        out.append(("unit-norm columns", A / np.linalg.norm(A, axis=0)))
+    if "orthonormal" in forms:
+        out.append(("orthonormal basis", np.linalg.qr(A)[0]))
+    return out
+
+
 class Out:
     """collects the result of one case: number of comparisons, mismatches (what, finding-id|None)"""
 
@@ -207,6 +222,15 @@ def ev_proj(c, o):
         if ok:
             o.check(close(pr.project(M), PM, 1e-5) and close(pr.oProject(M), oPM, 1e-5) and close(pr.reflect(M), RM, 1e-5),
                     f"[k=1e{c['sc']}] project / oProject / reflect with a nearly dependent basis of span(A) (tolerance 1e-5)")
+    for form, F in basis_forms(c, "A", mat(c["A"]) * k, k):
+        t = f"[basis of span(A) with {form}] "
+        ok, Q = _call(o, t + "calcProjectionMatrix", calcProjectionMatrix, F)
+        if ok:
+            o.check(close(Q, P), t + "calcProjectionMatrix differs from the projector onto span(A) (the result must depend on the subspace only)")
+        ok, pr = _call(o, t + "Projection", Projection, F)
+        if ok:
+            o.check(close(pr.project(M), PM) and close(pr.oProject(M), oPM) and close(pr.reflect(M), RM),
+                    t + "project / oProject / reflect differ from those of span(A)")
     for dt, A in variants(c["A"], k):
         ka = 1.0 if dt == "int" else k
         t = f"[{dt}, k=1e{c['sc'] if dt != 'int' else 0}] "
@@ -302,6 +326,24 @@ def ev_chord(c, o):
                 ok, d = _call(o, f"{name} {what}", f, x, y)
                 if ok:
                     o.check(0 <= float(np.real(d)) <= zt, f"[{dt}, k=1e{c['sc']}] {name}: {what} = {float(np.real(d))!r}, must vanish (<= {zt})")
+        # structured bases: every form of A against every form of B; a form of A against another basis of span(A)
+        fa = [("as built", A)] + basis_forms(c, "A", A, k)
+        fb = [("as built", B)] + basis_forms(c, "B", B, 1.0 / k)
+        for i, (na, xa) in enumerate(fa):
+            for j, (nb, xb) in enumerate(fb):
+                if i == 0 and j == 0:
+                    continue
+                ok, d = _call(o, f"{name} d(A [{na}], B [{nb}])", f, xa, xb)
+                if ok:
+                    d = float(np.real(d))
+                    o.check(d >= 0 and close(d * d, d2), f"{name}: d(A [{na}], B [{nb}])^2 = {d * d!r}, expected {d2!r} "
+                                                         "(the distance must depend on the two subspaces only)")
+            if i > 0:
+                for what, y in (("A T", AT), ("A", A)):
+                    ok, d = _call(o, f"{name} d(A [{na}], {what})", f, xa, y)
+                    if ok:
+                        o.check(0 <= float(np.real(d)) <= (1e-7 if "angles" in name else 1e-11),
+                                f"{name}: d(A [{na}], {what}) = {float(np.real(d))!r} for two bases of the same subspace, must vanish")
         if c.get("AI"):
             # nearly dependent basis of span(A) (cond ~ 1e4): same subspace, same distance; the routine through
             # inv(A^H A) is allowed cond^2 eps, the QR based ones cond eps
@@ -317,7 +359,8 @@ def ev_chord(c, o):
                 o.check(d >= 0 and close(d * d, d2), f"{name}: {what}^2 = {d * d!r}, expected {d2!r}")
     # the principal angles themselves: n angles in [0, pi/2], ascending, with the exact sum and product of cos^2
     n = c["n"]
-    for dt, a, b, at in sets:
+    extra = [(f"A [{na}], B [{nb}]", xa, xb, None) for (na, xa), (nb, xb) in zip(basis_forms(c, "A", A, k), reversed(basis_forms(c, "B", B, 1.0 / k)))]
+    for dt, a, b, at in sets + extra:
         ok, ang = _call(o, "calc_principal_angles", mt.calc_principal_angles, a, b)
         if ok:
             ang = np.asarray(ang, dtype=float)
@@ -350,6 +393,17 @@ def ev_chordx(c, o):
                 if ok:
                     d = float(np.real(d))
                     o.check(d >= 0 and close(d * d, d2), f"[{dt}] {name} {dims}: {what}^2 = {d * d!r}, expected {d2!r}")
+        fa = [("as built", A)] + basis_forms(c, "A", A, k)
+        fb = [("as built", B)] + basis_forms(c, "B", B, 1.0 / k)
+        for i, (na, xa) in enumerate(fa):
+            for j, (nb, xb) in enumerate(fb):
+                if i == 0 and j == 0:
+                    continue
+                for what, x, y in ((f"d(A [{na}], B [{nb}])", xa, xb), (f"d(B [{nb}], A [{na}])", xb, xa)):
+                    ok, d = _call(o, f"{name} {what} {dims}", f, x, y)
+                    if ok:
+                        d = float(np.real(d))
+                        o.check(d >= 0 and close(d * d, d2), f"{name} {dims}: {what}^2 = {d * d!r}, expected {d2!r} (subspaces only)")
         for what, x, y in (("d(UA,UB) (common signed-permutation unitary)", UA, UB), ("d(HB,HA) (common Householder rotation)", HB, HA)):
             ok, d = _call(o, f"{name} {what} {dims}", f, x, y)
             if ok:
@@ -623,7 +677,8 @@ def eval_case(c):
             EVAL[c["kind"]](c, o)
     except Exception as ex:  # a harness problem must not look like a pass
         import traceback
-        o.bad.append((f"harness exception {type(ex).__name__}: {ex} {traceback.format_exc()[-400:]}", "__harness__"))
+        # comparisons are total: whatever the code under test returned made the comparison itself fail - a verdict
+        o.bad.append((f"comparing the returned values raised {type(ex).__name__}: {ex} {traceback.format_exc()[-300:]}", None))
     return o.n, o.bad
 
 
